@@ -629,7 +629,7 @@ def rule_k9(ctx, facts):
 
 def run(ctx, facts):
     ctx.rule("K1", "the local compared with size_ctl equals the value the count RMW left in memory (affine forms, abs resolved by sign branch)",
-             floor=2, floor_note="add_count Greater and Less branches")
+             floor=1, floor_note="two on the pinned tree (add_count's Greater and Less branches); one RMW for both signs is as good")
     ctx.rule("K2", "capacity rounding min(2^30, next_power_of_two(1.5c+1)) in both presize siblings; thresholds are 3/4 of the new length",
              floor=6, floor_note="2 roundings + agreement + threshold stores in presize, try_presize, init_table, transfer")
     ctx.rule("K3", "resize initiators, try_presize callers, hint discipline", floor=7)
